@@ -33,6 +33,7 @@ def run_call(fn, payload, ctx):
     from ofxtools.Parser import OFXTree, TreeBuilder
     from ofxtools.models.base import Aggregate
     from ofxtools import Types
+    state = {}
     with warnings.catch_warnings():
         warnings.simplefilter("ignore")
         try:
@@ -95,6 +96,7 @@ def run_call(fn, payload, ctx):
             elif fn == "convert":
                 el = ET.fromstring(payload)
                 i = tree_digest(el)
+                state["el"], state["i"] = el, i
                 inst = Aggregate.from_etree(el)
                 o = model_digest(inst)
                 ia = tree_digest(el)
@@ -134,7 +136,11 @@ def run_call(fn, payload, ctx):
             elif fn == "treeconvert":
                 i = dg(bytes(payload["data"])); ia = i
             elif fn == "convert":
-                el = ET.fromstring(payload); i = tree_digest(el); ia = i
+                if state.get("el") is not None:
+                    # the conversion failed: the caller's tree must be what it was
+                    i, ia = state["i"], tree_digest(state["el"])
+                else:
+                    el = ET.fromstring(payload); i = tree_digest(el); ia = i
             elif fn in ("to_etree", "serialize"):
                 i = dg(json.dumps(payload, sort_keys=True)); ia = i
             else:
